@@ -206,6 +206,11 @@ def t_wmom(tree, D):
     e = strip_sum(val.left, "numerator of wmean")
     D.append(("gen_wmom_mean_term", "(w x : Q) : Q", Tr({"weights": "w", "arr": "x"})(e), up(im.body[0])))
     D.append(("gen_wmom_mean_fin", "(num wtot : Q) : Q", Tr({up(val.left): "num", "wtot": "wtot"})(val), up(im.body[0])))
+    # supplied mean: scalar or [ndim] array (fixes/C18/0001); `float(inputmean)` alone rejects the array form
+    et = [up(x) for x in im.orelse]
+    need(et == ["wmean = np.asarray(inputmean, dtype=np.float64)", "if wmean.ndim == 0:\n    wmean = float(wmean)"],
+         "else-branch of `if inputmean is None`: wmean = np.asarray(inputmean, dtype=np.float64); "
+         "if wmean.ndim == 0: wmean = float(wmean)   (got %r)" % (et,))
     # error
     ce = find_if(b, "calcerr", "wmom")
     need(len(ce.body) == 2 and len(ce.orelse) >= 1, "two statements under `if calcerr`, an else branch")
